@@ -692,6 +692,10 @@ func (j *judgeCtx) checkBarriers() {
 			if q := j.wufBlockedAtQuiescence(c); q != nil {
 				j.add("C06.c", q.Inv, "WaitUntilFinished (invoked at %d) is still blocked at the quiescent point %d: state %c, nothing in flight, no acknowledgement stalled, nothing startable pending", c.Inv, q.Inv, j.stateAt(q.Inv))
 			}
+			if len(c.Extra) > 0 && j.raceCancelAt == 0 {
+				j.add("C06.a", c.Ret, "WaitUntilFinished returned at %d, but job %d, whose worker function had returned by then, was not settled: its handle did not read Closed right afterwards", c.Ret, c.Extra[0])
+			}
+			j.ackBeforeBarrier(c)
 			if j.stateDuring(c.Inv, c.Ret) != lsR {
 				continue
 			}
@@ -726,6 +730,10 @@ func (j *judgeCtx) checkBarriers() {
 			if j.racedByResumer(c) {
 				continue
 			}
+			if len(c.Extra) > 0 {
+				j.add("C06.b", c.Ret, "%s returned nil at %d, but job %d, whose worker function had returned by then, was not settled: its handle did not read Closed right afterwards (it had not left the in-flight count properly)", opNames[c.K], c.Ret, c.Extra[0])
+			}
+			j.ackBeforeBarrier(c)
 			if n := j.inflightAt(c.Ret); n > 0 {
 				j.add("C06.b", c.Ret, "%s returned nil at %d while %d worker-function invocations were executing", opNames[c.K], c.Ret, n)
 			}
@@ -772,6 +780,30 @@ func (j *judgeCtx) pendingAtEnd() int {
 		}
 	}
 	return n
+}
+
+// ackBeforeBarrier: on the acknowledging kinds a job is settled when its delivery has been
+// acknowledged (or the acknowledgement was refused): that call is made before the job leaves
+// the in-flight count, so it cannot come after a barrier that saw nothing in flight.
+func (j *judgeCtx) ackBeforeBarrier(c *Call) {
+	if j.raceCancelAt != 0 {
+		return
+	}
+	for _, s := range j.wd.subs {
+		if s.ad == nil || len(s.Exits) == 0 || s.Exits[len(s.Exits)-1] > c.Ret || s.AddRet == 0 || s.AddRet >= c.Inv {
+			continue
+		}
+		first := uint64(0)
+		for _, a := range s.ad.calls {
+			if a.Op == "ack" && a.Sub == s.N && (first == 0 || a.Seq < first) {
+				first = a.Seq
+			}
+		}
+		if first > c.Ret {
+			j.add("C06.a", c.Ret, "%s returned at %d although job %d, whose worker function had returned at %d, was only acknowledged at %d: the barrier did not wait for the job to be settled", opNames[c.K], c.Ret, s.N, s.Exits[len(s.Exits)-1], first)
+			return
+		}
+	}
 }
 
 // racedByResumer: a Resume/Restart from another goroutine overlapped a pausing or
